@@ -385,3 +385,170 @@ Proof.
     pose proof (adepth_in _ _ _ Hin). lia.
 Qed.
 End Val.
+
+(* ================= normalisation keeps the domain and does not deepen ================= *)
+Lemma norm_in k x l : In (A k x) (sort_dedupe (map norm_attr l)) ->
+  exists x0, In (A k x0) l /\ x = norm_value x0.
+Proof.
+  intros H. apply sort_dedupe_incl in H. apply in_map_iff in H. destruct H as ([k0 x0|] & E & Hin); [|discriminate].
+  cbn [norm_attr] in E. inversion E; subst. exists x0. split; [exact Hin|reflexivity].
+Qed.
+
+Lemma norm_value_dom : forall v, dom_value_b v = true -> dom_value_b (norm_value v) = true.
+Proof.
+  apply (value_nested_ind (fun v => dom_value_b v = true -> dom_value_b (norm_value v) = true)).
+  - intros v G D. rewrite norm_leaf by exact G. exact D.
+  - intros items IH D. rewrite norm_group, dom_group. rewrite dom_group in D.
+    unfold dom_attrs_b. apply forallb_forall. intros [k x|] Hin; [|reflexivity].
+    destruct (norm_in _ _ _ Hin) as (x0 & Hin0 & ->). cbn [dom_attr_b].
+    rewrite Forall_forall in IH. apply (IH _ Hin0). exact (dom_attrs_in _ _ _ D Hin0).
+Qed.
+Lemma norm_attrs_dom l : dom_attrs_b l = true -> dom_attrs_b (norm_attrs l) = true.
+Proof.
+  intros D. unfold norm_attrs, dom_attrs_b. apply forallb_forall. intros [k x|] Hin; [|reflexivity].
+  destruct (norm_in _ _ _ Hin) as (x0 & Hin0 & ->). cbn [dom_attr_b].
+  apply norm_value_dom. exact (dom_attrs_in _ _ _ D Hin0).
+Qed.
+
+Lemma norm_value_depth : forall v, (vdepth (norm_value v) <= vdepth v)%nat.
+Proof.
+  apply (value_nested_ind (fun v => (vdepth (norm_value v) <= vdepth v)%nat)).
+  - intros v G. rewrite norm_leaf by exact G. lia.
+  - intros items IH. rewrite norm_group, !vdepth_group. apply le_n_S. apply adepth_bound.
+    intros k x Hin. destruct (norm_in _ _ _ Hin) as (x0 & Hin0 & ->).
+    rewrite Forall_forall in IH. pose proof (IH _ Hin0) as H1. cbv beta iota in H1. unfold on_attr in H1.
+    pose proof (adepth_in _ _ _ Hin0). lia.
+Qed.
+Lemma norm_attrs_depth l : (adepth (norm_attrs l) <= adepth l)%nat.
+Proof.
+  unfold norm_attrs. apply adepth_bound. intros k x Hin.
+  destruct (norm_in _ _ _ Hin) as (x0 & Hin0 & ->).
+  pose proof (norm_value_depth x0). pose proof (adepth_in _ _ _ Hin0). lia.
+Qed.
+
+(* ================= the shape of a JSON record ================= *)
+Section Rec.
+Variable isprint : Z -> bool.
+Variable g : registry.
+
+Definition time_member (c : ecfg) : bytes := json_quote n_time ++ x3a :: (x22 :: e_ts c ++ [x22]).
+Definition str_member (name v : bytes) : bytes := json_quote name ++ x3a :: json_quote v.
+Definition caller_body (file : bytes) (line : Z) (fn : bytes) : bytes :=
+  x7b :: join_with [x2c] [str_member n_file file; json_quote n_line ++ x3a :: dec_of_Z line; str_member n_function fn] ++ [x7d].
+Definition caller_members (c : option (bytes * Z * bytes)) : list bytes :=
+  match c with
+  | None => []
+  | Some (file, line, fn) => [json_quote n_caller ++ x3a :: caller_body file line fn]
+  end.
+Definition name_members (nm : bytes) : list bytes := match nm with [] => [] | _ => [str_member n_logger nm] end.
+Definition top_members (c : ecfg) (msg : bytes) (attrs : list attr) : list bytes :=
+  time_member c :: name_members (e_name c)
+  ++ str_member n_level (level_string g (e_lvl c)) :: str_member n_msg msg
+  :: members_of isprint ShJSON 0 0 [] (norm_attrs attrs) ++ caller_members (e_caller c).
+
+Lemma field_json n v : field isprint ShJSON n v = str_member n v.
+Proof. reflexivity. Qed.
+
+Lemma caller_part_json c : caller_part isprint ShJSON c = commas (caller_members c).
+Proof.
+  destruct c as [[[file line] fn]|]; [|reflexivity].
+  cbn [caller_part caller_members]. repeat rewrite field_json. rewrite commas_cons. cbn [commas map concat]. rewrite app_nil_r.
+  unfold caller_body. rewrite join_commas, !commas_cons. cbn [commas map concat]. rewrite !app_nil_r.
+  repeat (rewrite <- !app_assoc; cbn [app]). reflexivity.
+Qed.
+
+Lemma encode_shape c msg attrs : e_mode c = ShJSON -> blank_print c msg = false ->
+  encode isprint g c msg attrs = Some ((x7b :: join_with [x2c] (top_members c msg attrs) ++ [x7d]) ++ [x0a]).
+Proof.
+  intros Hm Hb. unfold encode. unfold blank_print in Hb. rewrite Hb, Hm. cbv iota. f_equal.
+  rewrite caller_part_json. unfold ser_top, render_members. fold (commas (members_of isprint ShJSON 0 0 [] (norm_attrs attrs))).
+  repeat rewrite field_json. unfold top_members. rewrite join_commas.
+  rewrite commas_app, !commas_cons, commas_app.
+  unfold time_member. cbn [key_token colon comma].
+  destruct (e_name c) as [|b nm]; cbn [name_members commas map concat];
+    repeat rewrite field_json; repeat (rewrite <- !app_assoc; cbn [app]); reflexivity.
+Qed.
+End Rec.
+
+(* ================= a whole record parses back ================= *)
+Lemma memb_lit self k body j : fixu k = k ->
+  (forall r, stop_b r = true -> self (body ++ r) = POk j r) ->
+  memb_ok self (json_quote k ++ x3a :: body) (k, j).
+Proof. intros E H. pose proof (memb_intro self k body j H) as M. rewrite E in M. exact M. Qed.
+
+Lemma fixu_time : fixu n_time = n_time. Proof. reflexivity. Qed.
+Lemma fixu_logger : fixu n_logger = n_logger. Proof. reflexivity. Qed.
+Lemma fixu_level : fixu n_level = n_level. Proof. reflexivity. Qed.
+Lemma fixu_msg : fixu n_msg = n_msg. Proof. reflexivity. Qed.
+Lemma fixu_caller : fixu n_caller = n_caller. Proof. reflexivity. Qed.
+Lemma fixu_file : fixu n_file = n_file. Proof. reflexivity. Qed.
+Lemma fixu_line : fixu n_line = n_line. Proof. reflexivity. Qed.
+Lemma fixu_function : fixu n_function = n_function. Proof. reflexivity. Qed.
+
+Definition json_members (g : registry) (c : ecfg) (msg : bytes) (attrs : list attr) : list (bytes * json) :=
+  (n_time, JStr (e_ts c))
+  :: (match e_name c with [] => [] | nm => [(n_logger, jstr nm)] end)
+  ++ (n_level, jstr (level_string g (e_lvl c)))
+  :: (n_msg, jstr msg)
+  :: jmembers (norm_attrs attrs)
+  ++ jcaller (e_caller c).
+Lemma json_of_members g c msg attrs : json_of g c msg attrs = JObj (json_members g c msg attrs).
+Proof. reflexivity. Qed.
+
+Section Rec2.
+Variable isprint : Z -> bool.
+Variable g : registry.
+
+Lemma str_member_ok f n v : fixu n = n -> memb_ok (pval (S f)) (str_member n v) (n, jstr v).
+Proof. intros E. apply memb_lit; [exact E|]. intros r _. apply E_quote. Qed.
+
+Lemma caller_ok f cal : (match cal with None => True | Some _ => (2 <= f)%nat end) ->
+  Forall2 (memb_ok (pval f)) (caller_members cal) (jcaller cal).
+Proof.
+  destruct cal as [[[file line] fn]|]; intros Hf; [|constructor].
+  cbn [caller_members jcaller]. constructor; [|constructor].
+  apply memb_lit; [exact fixu_caller|]. intros r _.
+  destruct f as [|[|f]]; try lia. rewrite pval_S. unfold caller_body.
+  rewrite <- app_comm_cons, <- app_assoc. cbn [app].
+  apply step_object. constructor; [|constructor; [|constructor; [|constructor]]].
+  - apply str_member_ok. exact fixu_file.
+  - apply memb_lit; [exact fixu_line|]. intros r' Hr'. apply E_num. exact Hr'.
+  - apply str_member_ok. exact fixu_function.
+Qed.
+
+Lemma top_members_ok c msg attrs f :
+  plain_b (e_ts c) = true -> dom_attrs_b attrs = true -> (rec_depth c attrs < f)%nat ->
+  Forall2 (memb_ok (pval f)) (top_members isprint g c msg attrs) (json_members g c msg attrs).
+Proof.
+  intros Hts D Hf. unfold rec_depth in Hf.
+  destruct f as [|f]; [lia|].
+  unfold top_members, json_members. constructor.
+  { unfold time_member. apply memb_lit; [exact fixu_time|]. intros r _. apply E_plain. exact Hts. }
+  apply Forall2_app.
+  { destruct (e_name c) as [|b nm]; [constructor|]. cbn [name_members]. constructor; [|constructor].
+    apply str_member_ok. exact fixu_logger. }
+  constructor. { apply str_member_ok. exact fixu_level. }
+  constructor. { apply str_member_ok. exact fixu_msg. }
+  apply Forall2_app.
+  - apply members_ok. intros k x Hin pfx' r Hr.
+    pose proof (norm_attrs_dom _ D) as D'.
+    apply value_ok; [exact (dom_attrs_in _ _ _ D' Hin)| |exact Hr].
+    pose proof (adepth_in _ _ _ Hin). pose proof (norm_attrs_depth attrs). lia.
+  - apply caller_ok. destruct (e_caller c); [lia|exact I].
+Qed.
+
+(* the record without its final newline is ONE JSON value, the expected object, and nothing else *)
+Lemma record_roundtrip c msg attrs out fuel :
+  dom_cfg_b c = true -> dom_attrs_b attrs = true -> blank_print c msg = false ->
+  (rec_depth c attrs + 2 <= fuel)%nat ->
+  encode isprint g c msg attrs = Some out ->
+  exists body, out = body ++ [x0a] /\ parse_json fuel body = Some (json_of g c msg attrs, []).
+Proof.
+  intros Dc Da Hb Hf He. unfold dom_cfg_b in Dc. apply andb_prop in Dc as [Hm Hts].
+  assert (Hm' : e_mode c = ShJSON) by (destruct (e_mode c); try discriminate; reflexivity).
+  rewrite (encode_shape isprint g c msg attrs Hm' Hb) in He.
+  exists (x7b :: join_with [x2c] (top_members isprint g c msg attrs) ++ [x7d]). split; [congruence|]. clear He.
+  destruct fuel as [|f]; [lia|]. unfold parse_json. rewrite pval_S, json_of_members.
+  rewrite (step_object (pval f) _ _ [] (top_members_ok c msg attrs f Hts Da ltac:(lia))). reflexivity.
+Qed.
+End Rec2.
